@@ -201,7 +201,7 @@ Definition qf (s' s : socket) : Prop :=
   s_state s' = s_state s /\ s_tuple s' = s_tuple s /\ s_listen_endpoint s' = s_listen_endpoint s /\
   s_local_seq_no s' = s_local_seq_no s /\ s_remote_last_ack s' = s_remote_last_ack s /\
   s_rtte s' = s_rtte s /\ s_ack_delay s' = s_ack_delay s /\
-  s_remote_last_seq s' = s_remote_last_seq s.
+  s_remote_last_seq s' = s_remote_last_seq s /\ s_ack_delay_timer s' = s_ack_delay_timer s.
 
 Lemma qf_refl s : qf s s.
 Proof. repeat split. Qed.
@@ -296,4 +296,73 @@ Proof.
       obind_inv Ebd; inversion Ebd; subst; eexists; reflexivity. }
   destruct Ho as (repr & ->). cbn [negb] in H.
   destruct (tcp_dispatch_finish cx s3 repr z k) as (s4, t4). inversion H; subst. eexists. reflexivity.
+Qed.
+
+(* ---------------------------------------------------------------------------------------- *)
+(* an ESTABLISHED socket with nothing in flight numbers whatever it transmits with SND.UNA     *)
+(* ---------------------------------------------------------------------------------------- *)
+Lemma send_next_fn s s' :
+  rt_max_seq_sent (s_rtte s') = rt_max_seq_sent (s_rtte s) -> s_remote_last_seq s' = s_remote_last_seq s ->
+  tcp_send_next_seq s' = tcp_send_next_seq s.
+Proof. intros A B. unfold tcp_send_next_seq. rewrite A, B. reflexivity. Qed.
+
+Theorem dispatch_est_seq : forall cx s t ok s' res tags,
+  tcp_live_inv s -> s_state s = Established -> s_timeout s = None ->
+  s_tuple s = Some t -> tu_local_addr t = cx_addr cx ->
+  s_keep_alive s = None -> noka (s_timer s) ->
+  s_remote_last_seq s = s_local_seq_no s -> tcp_send_next_seq s = s_local_seq_no s ->
+  tcp_dispatch cx s ok = Ok (s', res, tags) ->
+  forall p, res = DSent p -> r_seq_number (snd p) = s_local_seq_no s.
+Proof.
+  intros cx s t ok s' res tags I Hst Hto Htu Haddr Hka Hnk Hrl Hnx H p Hp.
+  assert (Hhs : hs_state (s_state s)) by (right; right; exact Hst).
+  destruct (dispatch_keeps _ _ _ _ _ _ _ I Hhs Hto Htu Haddr H) as (Kst & _). rewrite Hst in Kst.
+  unfold tcp_dispatch in H. rewrite Htu, Haddr, Z.eqb_refl in H. cbn [negb] in H.
+  obind_inv H. destruct a as (s1, t1). rename E into Edt.
+  pose proof (dispatch_timers_msx _ _ _ _ Edt) as M1.
+  pose proof (dispatch_timers_kaf _ _ _ _ Edt) as K1.
+  pose proof (dt_pre_core cx s) as (Q1 & _ & _ & _ & Q5 & Q6 & _).
+  pose proof (not_timed_out (dt_pre cx s) (cx_now cx) ltac:(rewrite dt_pre_timeout; exact Hto)) as Hnto.
+  assert (D : s_local_seq_no s1 = s_local_seq_no s /\ s_state s1 = s_state s /\ s_remote_last_seq s1 = s_local_seq_no s).
+  { destruct (dt_spec _ _ _ _ Edt) as [(X & _) | [(_ & _ & ->) | (_ & _ & D1 & _ & _ & D4 & _ & _ & _ & _ & _ & _ & D13 & _)]].
+    - rewrite Hnto in X. discriminate.
+    - rewrite Q1, Q5, Q6. auto.
+    - rewrite D1, D4, Q1, Q5. split; [reflexivity|]. split; [reflexivity|].
+      destruct D13 as [X | X]; rewrite X; [rewrite Q6; exact Hrl | exact Q5]. }
+  destruct D as (D1 & D3 & D6).
+  assert (Hnx1 : tcp_send_next_seq s1 = s_local_seq_no s).
+  { rewrite <- Hnx. apply send_next_fn; [exact M1 | rewrite D6, Hrl; reflexivity]. }
+  obind_inv H. destruct a as ((s2, go), t2). rename E into Edd.
+  destruct (dispatch_decide_cases _ _ _ _ _ Edd) as [-> | (-> & Hc2)].
+  2:{ cbn [negb] in H. inversion H; subst. rewrite Hc2 in Kst. discriminate. }
+  destruct (negb go); [inversion H; subst; discriminate|].
+  obind_inv H. destruct a as ((((s3, o), z), k), t3). rename E into Ebd.
+  unfold tcp_dispatch_build in Ebd. rewrite D3, Hst in Ebd.
+  obind_inv Ebd. destruct a as (((sb, ob), zb), tb). rename E into Eb.
+  set (ts := if s_tsval_generator s1 then Some (cx_tsval cx, s_last_remote_tsval s1) else None) in *.
+  set (repr0 := mkRepr (tu_local_port t) (tu_remote_port t) CNone (s_remote_last_seq s1)
+                       (Some (tcp_window_start s1)) (tcp_scaled_window s1) None None false no_sack ts []) in *.
+  assert (Est1 : s_state s1 = Established) by (rewrite D3; exact Hst).
+  destruct (build_data_est _ _ _ _ _ _ _ Eb Est1 eq_refl eq_refl)
+    as (_ & Bn & Bt & repr1 & -> & _ & _ & P3 & _).
+  pose proof (build_data_seq _ _ _ _ _ _ _ Eb) as Hsq1.
+  assert (Hsq1' : r_seq_number repr1 = s_local_seq_no s).
+  { destruct Hsq1 as [X | X]; rewrite X; [unfold repr0; cbn [r_seq_number]; exact D6 | exact D1]. }
+  assert (Hnk3 : timer_should_keep_alive (s_timer sb) (cx_now cx) = false).
+  { apply noka_not_keep_alive. rewrite Bt. apply (kaf_noka s1 s); [exact K1 | exact Hka | exact Hnk]. }
+  rewrite Hnk3 in Ebd. cbn [andb] in Ebd.
+  set (repr2 := if repr_is_empty repr1 && control_eqb (r_control repr1) CNone
+                then repr_set_seq repr1 (tcp_send_next_seq sb) else repr1) in *.
+  assert (R2 : r_seq_number repr2 = s_local_seq_no s /\ r_control repr2 = r_control repr1).
+  { unfold repr2. destruct (repr_is_empty repr1 && control_eqb (r_control repr1) CNone).
+    - cbn [repr_set_seq r_seq_number r_control]. split; [|reflexivity].
+      rewrite (nxf_next _ _ Bn). exact Hnx1.
+    - split; [exact Hsq1' | reflexivity]. }
+  clearbody repr2. destruct R2 as (R2a & R2c).
+  assert (Hns : control_eqb (r_control repr2) CSyn = false)
+    by (rewrite R2c; destruct P3 as [-> | ->]; reflexivity).
+  rewrite Hns in Ebd. cbn [obind] in Ebd. inversion Ebd; subst s3 o z k t3; clear Ebd.
+  destruct (negb ok); [inversion H; subst; discriminate|].
+  destruct (tcp_dispatch_finish cx sb repr2 zb false) as (s4, t4).
+  subst res. inversion H; subst. unfold with_payload_len. cbn [snd]. exact R2a.
 Qed.
